@@ -32,7 +32,9 @@ func (b *packetAccumulator) add(p *Packet) (ps []*Packet) {
 	}
 
 	// Empty buffer if we detect a discontinuity
-	if hasDiscontinuity(mps, p) {
+	// A packet that starts a payload unit right after the previous packet of its PID ends the previous unit like any other
+	// such packet, even if it announces a discontinuity: nothing of the previous unit is missing
+	if hasDiscontinuity(mps, p) && !startsNextUnit(mps, p) {
 		verifAcc(b.pid, p.Header.ContinuityCounter, "discontinuity")
 		// Reset current slice or make new
 		if cap(mps) > 0 {
@@ -127,6 +129,14 @@ func hasDiscontinuity(ps []*Packet, p *Packet) bool {
 	l := len(ps)
 	return (p.Header.HasAdaptationField && p.AdaptationField.DiscontinuityIndicator) || (l > 0 && ((p.Header.HasPayload && p.Header.ContinuityCounter != (ps[l-1].Header.ContinuityCounter+1)%16) ||
 		(!p.Header.HasPayload && p.Header.ContinuityCounter != ps[l-1].Header.ContinuityCounter)))
+}
+
+// startsNextUnit checks whether a packet starts a payload unit and carries the continuity counter that follows the one of
+// the last packet of a set of packets
+func startsNextUnit(ps []*Packet, p *Packet) bool {
+	l := len(ps)
+	return l > 0 && p.Header.PayloadUnitStartIndicator && p.Header.HasPayload &&
+		p.Header.ContinuityCounter == (ps[l-1].Header.ContinuityCounter+1)%16
 }
 
 // isSameAsPrevious checks whether a packet is the same as the last packet of a set of packets
